@@ -933,8 +933,9 @@ def run(ctx: common.Ctx):
   # theorems about the list model of the real Grid, the analytic ones (Gram, Hyp-A/B) are isolated on the basis tables;
   # T5.1 (rest_steady_dry_grid), T4.2, C11 / C12 / C10 corollaries are instantiated for it.  Audited and pinned like the
   # property theorems; tied to the real Grid by dyn_inst.validate (the list-model correspondence restricted to the record)
-  ctx.lean('DinoProofs.Properties.DYN', 'DYN.txt',
-           extra_files=['Dino/DynamicsInst.lean', 'DinoProofs/Lemmas/DynamicsInst.lean', 'DinoProofs/Lemmas/DynamicsInstMask.lean',
+  # (the module of the ofGrid witnesses imports Properties.DYN, so auditing it covers the whole index)
+  ctx.lean('DinoProofs.Lemmas.DynamicsInstWitness', 'DYN.txt',
+           extra_files=['DinoProofs/Properties/DYN.lean', 'Dino/DynamicsInst.lean', 'DinoProofs/Lemmas/DynamicsInst.lean', 'DinoProofs/Lemmas/DynamicsInstMask.lean',
                         'DinoProofs/Lemmas/DynamicsInstLaws.lean', 'DinoProofs/Lemmas/DynamicsInstSym.lean'])
   import functools
   from props import dyn_inst
